@@ -5,6 +5,8 @@
 package media
 
 import (
+	"verif/vrt"
+
 	"io"
 	"sync"
 
@@ -248,14 +250,20 @@ func (r *Recorder) CodecParameters() []webrtc.RTPCodecParameters {
 	return []webrtc.RTPCodecParameters{r.Codec}
 }
 func (r *Recorder) HeaderExtensions() []webrtc.RTPHeaderExtensionParameter { return nil }
-func (r *Recorder) SSRC() webrtc.SSRC                                       { return r.Ssrc }
-func (r *Recorder) SSRCRetransmission() webrtc.SSRC                         { return 0 }
-func (r *Recorder) SSRCForwardErrorCorrection() webrtc.SSRC                 { return 0 }
-func (r *Recorder) WriteStream() webrtc.TrackLocalWriter                    { return r }
-func (r *Recorder) ID() string                                              { return "recorder" }
-func (r *Recorder) RTCPReader() interceptor.RTCPReader                      { return r.Reader }
+func (r *Recorder) SSRC() webrtc.SSRC                                      { return r.Ssrc }
+func (r *Recorder) SSRCRetransmission() webrtc.SSRC                        { return 0 }
+func (r *Recorder) SSRCForwardErrorCorrection() webrtc.SSRC                { return 0 }
+func (r *Recorder) WriteStream() webrtc.TrackLocalWriter                   { return r }
+func (r *Recorder) ID() string                                             { return "recorder" }
+func (r *Recorder) RTCPReader() interceptor.RTCPReader                     { return r.Reader }
 
 func (r *Recorder) WriteRTP(h *rtp.Header, payload []byte) (int, error) {
+	// handing a packet to the network takes time (encryption, socket
+	// write): under the scheduler this is a point where other threads run
+	// while the payload still lives in the caller's buffer
+	if vrt.Controlled() {
+		vrt.Yield("writeStream.WriteRTP")
+	}
 	r.mu.Lock()
 	defer r.mu.Unlock()
 	hc := h.Clone()
